@@ -205,11 +205,128 @@ Ltac split_guards H :=
          | G : (_ && _) = true |- _ => let G1 := fresh "G" in apply andb_true_iff in G; destruct G as [G1 G]
          end.
 
+Lemma rootb_true n : rootb n = true <-> n = 0.
+Proof. unfold rootb. apply Nat.eqb_eq. Qed.
+Lemma rootb_false n : rootb n = false <-> n <> 0.
+Proof. unfold rootb. apply Nat.eqb_neq. Qed.
+
+Lemma Rn_setR_same s n v : Rn (setR s n v) n = v.
+Proof. cbn [Rn setR]. apply upd_same. Qed.
+Lemma Rn_setR_other s n v m : m <> n -> Rn (setR s n v) m = Rn s m.
+Proof. intros H. cbn [Rn setR]. apply upd_other. exact H. Qed.
+
+(* ------------------------------------------------------------------ frame lemmas: Rn *)
+
+Definition same_but_q (a b : rst) : Prop :=
+  ph b = ph a /\ pend b = pend a /\ seen b = seen a /\ ndone b = ndone a /\ expi b = expi a
+  /\ tbeg b = tbeg a /\ fto b = fto a /\ fcr b = fcr a /\ rcanc b = rcanc a.
+
+Lemma same_but_q_refl a : same_but_q a a.
+Proof. unfold same_but_q. tauto. Qed.
+
+Lemma same_but_q_trans a b d : same_but_q a b -> same_but_q b d -> same_but_q a d.
+Proof. unfold same_but_q. intuition congruence. Qed.
+
+Lemma Rn_setJ s j v : Rn (setJ s j v) = Rn s. Proof. reflexivity. Qed.
+Lemma Rn_setH s j v : Rn (setH s j v) = Rn s. Proof. reflexivity. Qed.
+Lemma Rn_setS s j v : Rn (setS s j v) = Rn s. Proof. reflexivity. Qed.
+Lemma Rn_mapJ f l s : Rn (mapJ f l s) = Rn s. Proof. reflexivity. Qed.
+Lemma Rn_mapH f l s : Rn (mapH f l s) = Rn s. Proof. reflexivity. Qed.
+Lemma Rn_setNow s t : Rn (setNow s t) = Rn s. Proof. reflexivity. Qed.
+Lemma Rn_clear_cp s n : Rn (clear_cp s n) = Rn s.
+Proof. unfold clear_cp. destruct (rootb n); reflexivity. Qed.
+Lemma Rn_clear_hcp s n : Rn (clear_hcp s n) = Rn s. Proof. reflexivity. Qed.
+Lemma Rn_hdone n r s : Rn (hdone n r s) = Rn s. Proof. reflexivity. Qed.
+
+Lemma Rn_shutdown_start c n i s : Rn (fst (shutdown_start c n i s)) = Rn s.
+Proof.
+  unfold shutdown_start. destruct (did (Sd s n)); [reflexivity|].
+  destruct (members c n); reflexivity.
+Qed.
+
+Lemma Rn_bump_q_q s p f m : same_but_q (Rn s m) (Rn (bump_q s p f) m).
+Proof.
+  unfold bump_q. cbn [Rn setR]. unfold upd.
+  destruct (Nat.eqb_spec m p) as [->|H]; [|apply same_but_q_refl].
+  unfold same_but_q. cbn. tauto.
+Qed.
+
+Lemma Rn_job_leave_q c n x s m : same_but_q (Rn s m) (Rn (job_leave c n x s) m).
+Proof.
+  unfold job_leave. destruct (Nat.eqb n 0); [apply same_but_q_refl|].
+  cbn [Rn setR setJ]. unfold upd.
+  destruct (Nat.eqb_spec m (parent c n)) as [->|H]; [|apply same_but_q_refl].
+  unfold same_but_q. cbn. tauto.
+Qed.
+
+Lemma ph_set_phase s n p m :
+  Rn (set_phase s n p) m =
+  if Nat.eqb m n then mkRst p (pend (Rn s n)) (seen (Rn s n)) (ndone (Rn s n)) (qsz (Rn s n))
+                            (expi (Rn s n)) (tbeg (Rn s n)) (fto (Rn s n)) (fcr (Rn s n)) (rcanc (Rn s n))
+  else Rn s m.
+Proof. unfold set_phase. cbn [Rn setR]. unfold upd. destruct (Nat.eqb m n); reflexivity. Qed.
+
+Lemma Rn_exit_main c n w p s m :
+  Rn (fst (exit_main c n w p s)) m =
+  Rn (set_phase s n (match p with [] => PShut w | _ => PTidy w end)) m.
+Proof.
+  unfold exit_main. destruct p as [|a p].
+  - destruct (shutdown_start c n true (set_phase s n (PShut w))) as [s1 o] eqn:E.
+    cbn [fst]. change s1 with (fst (s1, o)). rewrite <- E, Rn_shutdown_start. reflexivity.
+  - cbn [fst]. rewrite !ph_set_phase. rewrite Rn_mapJ. reflexivity.
+Qed.
+
+Lemma Rn_end_cancelled_q c n s m : m <> n ->
+  same_but_q (Rn s m) (Rn (fst (end_cancelled c n s)) m).
+Proof.
+  intros H. unfold end_cancelled. cbn [fst].
+  eapply same_but_q_trans; [|apply Rn_job_leave_q].
+  rewrite ph_set_phase. apply Nat.eqb_neq in H. rewrite H. apply same_but_q_refl.
+Qed.
+
+Lemma Rn_end_cancelled_n c n s :
+  ph (Rn (fst (end_cancelled c n s)) n) = POver /\
+  pend (Rn (fst (end_cancelled c n s)) n) = pend (Rn s n).
+Proof.
+  unfold end_cancelled. cbn [fst].
+  pose proof (Rn_job_leave_q c n Cancelled (set_phase s n POver) n) as (H1 & H2 & _).
+  rewrite H1, H2, ph_set_phase, Nat.eqb_refl. cbn. auto.
+Qed.
+
+Lemma Rn_finish_run_q c n w r cu s m : m <> n ->
+  same_but_q (Rn s m) (Rn (fst (finish_run c n w r cu s)) m).
+Proof.
+  intros H. unfold finish_run. cbn [fst].
+  eapply same_but_q_trans; [|apply Rn_job_leave_q].
+  rewrite Rn_setR_other by exact H. apply same_but_q_refl.
+Qed.
+
+Lemma Rn_finish_run_n c n w r cu s :
+  ph (Rn (fst (finish_run c n w r cu s)) n) = POver /\
+  pend (Rn (fst (finish_run c n w r cu s)) n) = pend (Rn s n).
+Proof.
+  unfold finish_run. cbn [fst].
+  match goal with |- context [job_leave c n ?x ?S0] =>
+    pose proof (Rn_job_leave_q c n x S0 n) as (H1 & H2 & _) end.
+  rewrite H1, H2, Rn_setR_same. cbn. auto.
+Qed.
+
+
+
+Lemma cancel_j_st0 a : st (cancel_j a) = st a.
+Proof. unfold cancel_j. destruct (finished (st a)); reflexivity. Qed.
+
+Lemma done_finished0 a : is_done a = true -> finished a = true.
+Proof. destruct a; cbn; auto. Qed.
+
 (* ------------------------------------------------------------------ the J-effect lemma *)
 
+(* [sub]: the job is the subject of the event (its own event, or the run that acts) *)
 Inductive jeff (c : cfg) (s s' : state) (x : nat) (sub : Prop) : Prop :=
 | JE_same : Jb s' x = Jb s x -> jeff c s s' x sub
-| JE_cancel : Jb s' x = cancel_j (Jb s x) -> (exists n, In x (pend (Rn s n))) -> jeff c s s' x sub
+| JE_cancel : Jb s' x = cancel_j (Jb s x) ->
+              (exists n, In x (pend (Rn s n)) /\ ph (Rn s' n) <> PMain /\ ph (Rn s' n) <> PIdle) ->
+              jeff c s s' x sub
 | JE_uncp : sub -> st (Jb s x) = Running -> j_sched (jc c x) = true -> cp (Jb s x) = true ->
             Jb s' x = mkJst Running false (tend (Jb s x)) (ran (Jb s x)) -> jeff c s s' x sub
 | JE_create_main : st (Jb s x) = Idle -> Jb s' x = mkJst Created false None false ->
@@ -229,20 +346,13 @@ Inductive jeff (c : cfg) (s s' : state) (x : nat) (sub : Prop) : Prop :=
             is_done (st (Jb s' x)) = true -> cp (Jb s' x) = false -> ran (Jb s' x) = true -> jeff c s s' x sub
 | JE_hit : sub -> st (Jb s x) = Running -> cp (Jb s x) = true -> j_sched (jc c x) = false ->
            st (Jb s' x) = Cancelling -> cp (Jb s' x) = false -> ran (Jb s' x) = true -> jeff c s s' x sub
-| JE_cancelled : sub -> (st (Jb s x) = Cancelling \/ (st (Jb s x) = Running /\ j_sched (jc c x) = true)) ->
+| JE_cancelled : sub ->
+                 (st (Jb s x) = Cancelling \/
+                  (st (Jb s x) = Running /\ j_sched (jc c x) = true /\
+                   (cp (Jb s x) = true \/ ph (Rn s x) = PCTidy \/ rcanc (Rn s x) = true))) ->
                  Jb s' x = mkJst Cancelled false None true -> jeff c s s' x sub
 | JE_gone : sub -> st (Jb s x) = Created -> cp (Jb s x) = true ->
             Jb s' x = mkJst Cancelled false None false -> jeff c s s' x sub.
-
-Lemma rootb_true n : rootb n = true <-> n = 0.
-Proof. unfold rootb. apply Nat.eqb_eq. Qed.
-Lemma rootb_false n : rootb n = false <-> n <> 0.
-Proof. unfold rootb. apply Nat.eqb_neq. Qed.
-
-Lemma Rn_setR_same s n v : Rn (setR s n v) n = v.
-Proof. cbn [Rn setR]. apply upd_same. Qed.
-Lemma Rn_setR_other s n v m : m <> n -> Rn (setR s n v) m = Rn s m.
-Proof. intros H. cbn [Rn setR]. apply upd_other. exact H. Qed.
 
 Lemma jeff_begin c s n x : wf c = true -> sched_id c n = true ->
   (if rootb n then match ph (Rn s n) with PIdle => true | _ => false end
@@ -288,13 +398,20 @@ Proof.
       apply JE_start; auto; rewrite E; reflexivity.
 Qed.
 
+Lemma ph_exit_main c n w p s :
+  ph (Rn (fst (exit_main c n w p s)) n) <> PMain /\ ph (Rn (fst (exit_main c n w p s)) n) <> PIdle.
+Proof.
+  rewrite Rn_exit_main, ph_set_phase, Nat.eqb_refl. cbn [ph]. destruct p; split; discriminate.
+Qed.
+
 Lemma jeff_exit_main c s0 s n w p x :
   Jb s0 = Jb s -> (forall y, In y p -> In y (pend (Rn s n))) ->
   jeff c s (fst (exit_main c n w p s0)) x (x = n).
 Proof.
   intros EJ Hp. pose proof (Jb_exit_main c n w p s0 x) as E. rewrite EJ in E.
   destruct (memb x p) eqn:Ex.
-  - apply JE_cancel; [exact E|]. exists n. apply Hp. apply memb_In. exact Ex.
+  - apply JE_cancel; [exact E|]. exists n. split; [apply Hp; apply memb_In; exact Ex|].
+    apply ph_exit_main.
   - apply JE_same. exact E.
 Qed.
 
@@ -346,12 +463,14 @@ Proof.
   destruct (cp (Jb s n)); [reflexivity|discriminate].
 Qed.
 
+(* [cause]: why the run of n ends cancelled *)
 Lemma jeff_end_cancelled c s0 s n x :
   (forall y, y <> n -> Jb s0 y = Jb s y) ->
   j_sched (jc c n) = true -> (n <> 0 -> st (Jb s n) = Running) -> (n = 0 -> Jb s0 = Jb s) ->
+  (cp (Jb s n) = true \/ ph (Rn s n) = PCTidy \/ rcanc (Rn s n) = true) ->
   jeff c s (fst (end_cancelled c n s0)) x (x = n).
 Proof.
-  intros Ho Hs Hr H0. pose proof (Jb_end_cancelled c n s0 x) as E.
+  intros Ho Hs Hr H0 Hcause. pose proof (Jb_end_cancelled c n s0 x) as E.
   destruct (Nat.eqb_spec n 0) as [->|Hn0].
   - apply JE_same. rewrite E, (H0 eq_refl). reflexivity.
   - destruct (Nat.eqb_spec x n) as [->|Hxn].
@@ -379,14 +498,15 @@ Qed.
 Lemma jeff_tidy c s n x : run_alive c s n false = true -> jeff c s (fst (react_tidy c n s)) x (x = n).
 Proof.
   intros Ha. destruct (run_alive_false _ _ _ Ha) as (Hs & Hn & Hr).
-  unfold react_tidy. destruct (rcanc (Rn s n)).
+  unfold react_tidy. destruct (rcanc (Rn s n)) eqn:Erc.
   - apply jeff_end_cancelled; auto. intros Hn0. apply Hr. exact Hn0.
   - apply JE_same. rewrite Jb_shutdown_start. reflexivity.
 Qed.
 
-Lemma jeff_ctidy c s n x : run_alive c s n false = true -> jeff c s (fst (end_cancelled c n s)) x (x = n).
+Lemma jeff_ctidy c s n x : run_alive c s n false = true -> ph (Rn s n) = PCTidy ->
+  jeff c s (fst (end_cancelled c n s)) x (x = n).
 Proof.
-  intros Ha. destruct (run_alive_false _ _ _ Ha) as (Hs & Hn & Hr).
+  intros Ha Hph. destruct (run_alive_false _ _ _ Ha) as (Hs & Hn & Hr).
   apply jeff_end_cancelled; auto. intros Hn0. apply Hr. exact Hn0.
 Qed.
 
@@ -420,14 +540,13 @@ Proof.
   assert (EJ : Jb s1 = Jb s) by reflexivity.
   destruct (sd_inline s n) eqn:Ein.
   - destruct (run_alive_false _ _ _ (Hi eq_refl)) as (Hs & Hn & Hr).
-    assert (Hfin : jeff c s (fst (finish_run c n (why_of s n) r cu s1)) x (x = n)).
-    { apply jeff_finish_run; auto. }
-    assert (Hcan : jeff c s (fst (end_cancelled c n s1)) x (x = n)).
-    { apply jeff_end_cancelled;
-        [intros y _; rewrite EJ; reflexivity | exact Hs | intros Hn0; apply Hr; exact Hn0
-        | intros _; exact EJ]. }
-    destruct r; try exact Hfin.
-    destruct (end_cancelled c n s1) as [s2 mo2]. exact Hcan.
+    destruct (rcanc (Rn s n)) eqn:Erc.
+    + assert (Hcan : jeff c s (fst (end_cancelled c n s1)) x (x = n)).
+      { apply jeff_end_cancelled;
+          [intros y _; rewrite EJ; reflexivity | exact Hs | intros Hn0; apply Hr; exact Hn0
+          | intros _; exact EJ | right; right; exact Erc]. }
+      destruct (end_cancelled c n s1) as [s2 mo2]. exact Hcan.
+    + apply jeff_finish_run; auto.
   - apply JE_same. cbn [fst]. rewrite Jb_hdone, EJ. reflexivity.
 Qed.
 
@@ -439,16 +558,17 @@ Lemma jeff_cancel_list c s n l x s' :
   wf c = true -> pend_ok c s -> run_alive c s n true = true ->
   (forall y, In y l -> In y (pend (Rn s n))) ->
   Jb s' x = Jb (mapJ cancel_j l (clear_cp s n)) x ->
+  ph (Rn s' n) <> PMain -> ph (Rn s' n) <> PIdle ->
   jeff c s s' x (x = n).
 Proof.
-  intros W Hp Ha Hl E. destruct (run_alive_true _ _ _ Ha) as (Hs & Hn & Hn0 & Hst & Hcp).
+  intros W Hp Ha Hl E P1 P2. destruct (run_alive_true _ _ _ Ha) as (Hs & Hn & Hn0 & Hst & Hcp).
   rewrite Jb_mapJ, Jb_clear_cp in E.
   apply rootb_false in Hn0. rewrite Hn0 in E. apply rootb_false in Hn0.
   destruct (memb x l) eqn:Ex.
   - apply memb_In in Ex. pose proof (Hl _ Ex) as Hx.
     assert (Hxn : x <> n) by (apply (member_neq c n x W); apply Hp; exact Hx).
     apply Nat.eqb_neq in Hxn. rewrite Hxn in E.
-    apply JE_cancel; [exact E|]. exists n. exact Hx.
+    apply JE_cancel; [exact E|]. exists n. auto.
   - destruct (Nat.eqb_spec x n) as [->|Hxn]; [|apply JE_same; exact E].
     apply JE_uncp; auto. rewrite E, Hst. reflexivity.
 Qed.
@@ -468,23 +588,24 @@ Proof.
       apply Nat.eqb_neq in Hy. rewrite Hy. reflexivity.
     + intros E0. contradiction.
   - rewrite <- Eu in *. cbn [fst].
-    eapply jeff_cancel_list; eauto.
+    eapply jeff_cancel_list; eauto; rewrite Rn_setR_same; discriminate.
 Qed.
 
 Lemma jeff_cancel_tidy c s n x :
   wf c = true -> pend_ok c s -> run_alive c s n true = true ->
+  (exists w, ph (Rn s n) = PTidy w) ->
   jeff c s (fst (react_cancel_tidy c n s)) x (x = n).
 Proof.
-  intros W Hp Ha. unfold react_cancel_tidy. cbn [fst].
-  eapply jeff_cancel_list; eauto.
+  intros W Hp Ha [w Hph]. unfold react_cancel_tidy. cbn [fst].
+  eapply jeff_cancel_list; eauto; rewrite Rn_setR_same; cbn [ph]; rewrite Rn_clear_cp, Hph; discriminate.
 Qed.
 
 Lemma jeff_cancel_ctidy c s n x :
-  wf c = true -> pend_ok c s -> run_alive c s n true = true ->
+  wf c = true -> pend_ok c s -> run_alive c s n true = true -> ph (Rn s n) = PCTidy ->
   jeff c s (fst (react_cancel_ctidy c n s)) x (x = n).
 Proof.
-  intros W Hp Ha. unfold react_cancel_ctidy. cbn [fst].
-  eapply jeff_cancel_list; eauto.
+  intros W Hp Ha Hph. unfold react_cancel_ctidy. cbn [fst].
+  eapply jeff_cancel_list; eauto; rewrite Rn_mapJ, Rn_clear_cp, Hph; discriminate.
 Qed.
 
 Lemma jeff_cancel_shut c s n x :
@@ -492,13 +613,14 @@ Lemma jeff_cancel_shut c s n x :
   jeff c s (fst (react_cancel_shut c n s)) x (x = n).
 Proof.
   intros Hi. unfold react_cancel_shut.
-  set (s0 := if sd_inline s n then clear_cp s n else clear_hcp s n).
-  assert (E1 : Jb (fst (react_shut_cancel c n s0)) = Jb s0) by apply Jb_react_shut_cancel.
-  destruct (sd_inline s n) eqn:Ein; [|apply JE_same; rewrite E1; reflexivity].
-  destruct (run_alive_true _ _ _ (Hi eq_refl)) as (Hs & Hn & Hn0 & Hst & Hcp).
-  pose proof (Jb_clear_cp s n x) as E. apply rootb_false in Hn0. rewrite Hn0 in E.
-  destruct (Nat.eqb_spec x n) as [->|Hxn]; [|apply JE_same; rewrite E1; exact E].
-  apply JE_uncp; auto. rewrite E1. unfold s0. rewrite E, Hst. reflexivity.
+  destruct (sd_inline s n) eqn:Ein.
+  - destruct (run_alive_true _ _ _ (Hi eq_refl)) as (Hs & Hn & Hn0 & Hst & Hcp).
+    match goal with |- jeff c s (fst (react_shut_cancel c n ?S0)) x _ =>
+      assert (E1 : Jb (fst (react_shut_cancel c n S0)) = Jb (clear_cp s n)) by reflexivity end.
+    pose proof (Jb_clear_cp s n x) as E. apply rootb_false in Hn0. rewrite Hn0 in E.
+    destruct (Nat.eqb_spec x n) as [->|Hxn]; [|apply JE_same; rewrite E1; exact E].
+    apply JE_uncp; auto. rewrite E1, E, Hst. reflexivity.
+  - apply JE_same. reflexivity.
 Qed.
 
 Lemma atomic_id_spec c j : atomic_id c j = true -> j_sched (jc c j) = false /\ j < njobs c /\ j <> 0.
@@ -530,15 +652,17 @@ Proof.
   - (* EWake *) destruct k; cbn [reaction].
     + split_guards Hg. apply jeff_main; [exact W|]. destruct (ph (Rn s n)); try discriminate. reflexivity.
     + split_guards Hg. apply jeff_tidy. assumption.
-    + split_guards Hg. apply jeff_ctidy. assumption.
+    + split_guards Hg. apply jeff_ctidy; [assumption|]. destruct (ph (Rn s n)); try discriminate. reflexivity.
     + cbn [forallb guards app outs_guards] in Hg. apply andb_true_iff in Hg. destruct Hg as [G1 _].
       apply jeff_shut. eapply sd_thread_inline; eauto.
     + cbn [forallb guards app outs_guards] in Hg. apply andb_true_iff in Hg. destruct Hg as [G1 _].
       apply jeff_shtidy. eapply sd_thread_inline; eauto.
   - (* ECancelled *) destruct k; cbn [reaction].
     + split_guards Hg. apply jeff_cancel_main; assumption.
-    + split_guards Hg. apply jeff_cancel_tidy; assumption.
-    + split_guards Hg. apply jeff_cancel_ctidy; assumption.
+    + split_guards Hg. apply jeff_cancel_tidy; try assumption.
+      destruct (ph (Rn s n)) as [| |w| | |]; try discriminate. exists w. reflexivity.
+    + split_guards Hg. apply jeff_cancel_ctidy; try assumption.
+      destruct (ph (Rn s n)); try discriminate. reflexivity.
     + cbn [forallb guards app outs_guards] in Hg. apply andb_true_iff in Hg. destruct Hg as [G1 _].
       apply jeff_cancel_shut. eapply sd_thread_inline; eauto.
     + cbn [forallb guards app outs_guards] in Hg. apply andb_true_iff in Hg. destruct Hg as [G1 _].
@@ -587,9 +711,3 @@ Proof.
   - apply JE_same. reflexivity.
   - apply JE_same. reflexivity.
 Qed.
-
-Lemma cancel_j_st0 a : st (cancel_j a) = st a.
-Proof. unfold cancel_j. destruct (finished (st a)); reflexivity. Qed.
-
-Lemma done_finished0 a : is_done a = true -> finished a = true.
-Proof. destruct a; cbn; auto. Qed.
